@@ -400,6 +400,68 @@ fn check_parent(run: &Run, pnode: &Node, cfg: &AlphaCfg, max_batch: usize) {
     });
 }
 
+/// A parent that has just been restarted (rebuilt with from_block from its own block and stake set) accepts what the parent
+/// that kept running produces, and the other way round - at ordinary heights and around the ends of staking epochs, where the
+/// stake set changes between a block and its successor.
+fn restarted_parents(run: &Run) {
+    use std::collections::BTreeMap;
+    let mut stakes: BTreeMap<melstructs::TxHash, melstructs::StakeDoc> = BTreeMap::new();
+    for (i, (start, end)) in [(0u64, 0u64), (0, 1), (1, 2), (0, 5)].into_iter().enumerate() {
+        stakes.insert(melstructs::TxHash(HashVal([0x50 + i as u8; 32])), melstructs::StakeDoc { pubkey: key(i as u8).0, e_start: start, e_post_end: end, syms_staked: CoinValue(1000 + i as u128) });
+    }
+    let mut roots: Vec<(String, Sealed)> = vec![];
+    for h in [0u64, 199_997, 399_997, 599_997] {
+        let w = world(NetID::Custom02, out_t(1_000_000_000, melstructs::Denom::Mel), 1 << 30, 0, stakes.clone());
+        let g = w.genesis.clone().seal(None);
+        let s = if h == 0 { g } else { fabricate(&g, &w.db, NetID::Custom02, h, &[]) };
+        roots.push((format!("genesis[Custom02+4 stakes]{}", if h == 0 { String::new() } else { format!(" ; jump({})", h) }), s));
+    }
+    for (name, root) in roots {
+        let mut running = root;
+        for step in 0..5usize {
+            let db = running.raw_coins_smt().database();
+            let rebuilt = match guard(|| melstf::SealedState::from_block(&running.to_block(), &running.raw_stakes(), &db)) {
+                Ok(r) => r,
+                Err(_) => {
+                    run.outcome("restarted-parent:rebuild-panics(reported under C09)");
+                    break;
+                }
+            };
+            let coin = melstructs::CoinID::zero_zero();
+            let spend = tx_t(melstructs::TxKind::Normal, vec![coin], vec![out_t(1_000_000_000, melstructs::Denom::Mel)], 0, vec![step as u8]);
+            for (what, txs, act) in [("empty", vec![], None), ("empty/action", vec![], Some(action_dest(1))), ("transfer/action", vec![spend.clone()], Some(action_dest(2)))] {
+                for (builder_name, builder, judge_name, judge_state) in [("the parent that kept running", &running, "the restarted parent", &rebuilt), ("the restarted parent", &rebuilt, "the parent that kept running", &running)] {
+                    let built = guard(|| {
+                        let mut u = builder.next_unsealed();
+                        u.apply_tx_batch(&txs).ok()?;
+                        Some(u.seal(act).to_block())
+                    });
+                    run.transition();
+                    if let Ok(Some(blk)) = built {
+                        match guard(|| judge_state.apply_block(&blk).map(|s| s.header())) {
+                            Ok(Ok(h)) if h == blk.header => run.outcome("restarted-parent:accepted"),
+                            Ok(Ok(_)) => run.violation("C06", "restarted-parent/returned-header-differs".into(), format!("[{}] after {} block(s): block [{}] built by {} applied to {}", name, step, what, builder_name, judge_name), json!({"root": name, "blocks": step, "block": what})),
+                            Ok(Err(e)) => run.violation(
+                                "C06",
+                                "restarted-parent/rejects-honest-block".into(),
+                                format!("[{}] after {} block(s) (height {}): the block [{}] built by {} is rejected by {}: {}", name, step, running.header().height.0, what, builder_name, judge_name, e),
+                                json!({"root": name, "blocks": step, "block": what, "built_by": builder_name, "block_stdcode_hex": hex::encode(stdcode::serialize(&blk).unwrap())}),
+                            ),
+                            Err(_) => run.outcome("restarted-parent:panic(reported under C09)"),
+                        }
+                    }
+                    run.validated();
+                }
+            }
+            running = match guard(|| running.next_unsealed().seal(if step % 2 == 0 { None } else { Some(action_dest(3)) })) {
+                Ok(s) => s,
+                Err(_) => break,
+            };
+            run.state();
+        }
+    }
+}
+
 pub fn run(run: &Run) {
     let thorough = run.thorough();
     let scratch = Run::new("scratch", "quick");
@@ -515,6 +577,7 @@ pub fn run(run: &Run) {
             }
         }
     }
+    restarted_parents(run);
     run.set("parents", json!(total_parents));
     run.set("networks", json!(["Custom02 (sparse tx tree)", "Custom08 (dense tx tree, TIP-908)", "Testnet (pre-TIP rules below 500)", "thorough: Custom02 with fees, Mainnet"]));
     run.sample(json!({"parent": "genesis[Custom02]", "block": "xfer(coin)/action", "mutation": "header:fee_multiplier", "oracle": "apply_block is Ok iff (batch accepted and sealed header == block header); returned header == block header"}));
